@@ -173,6 +173,11 @@ func TestVerifC02(t *testing.T) {
 					if !found {
 						fail("a kept range is not a candidate")
 					}
+					for _, c := range cs { // sortByOffsetSlice: "prefer longer candidates if starting at same position" (C02_gather_prefers_longer)
+						if c.fn == x.fn && c.off == x.off && c.sz > x.sz {
+							fail("a kept range is not the longest candidate of its class starting at its offset")
+						}
+					}
 					if j > 0 {
 						p := oc[j-1]
 						if p.fn == x.fn && p.off+p.sz > x.off {
@@ -306,9 +311,22 @@ func TestVerifC02(t *testing.T) {
 				cs    bool
 				re    string // non-empty: single regexp (source)
 				reAlt bool   // the regexp is a plain alternation that zoekt may answer from substring atoms
+				ors   []string // non-empty: or of content substrings
 			}
 			var qsp qspec
-			if r.Chance(50) {
+			if r.Chance(25) { // several substring atoms: or(p1, p2[, p3]) — overlap removal between atoms
+				pool := []string{"foo", "foobar", "oba", "oo", "bar", "aa", "aaa", "needle", "edle n", "é", "世界", "fo", "o b", "arf", "x"}
+				k := 2 + r.Intn(2)
+				cs := r.Chance(50)
+				var ch []query.Q
+				var ps []string
+				for len(ps) < k {
+					p := r.Pick(pool)
+					ps = append(ps, p)
+					ch = append(ch, &query.Substring{Pattern: p, CaseSensitive: cs, Content: true})
+				}
+				qsp = qspec{q: &query.Or{Children: ch}, desc: fmt.Sprintf("or(%q,cs=%v)", ps, cs), ors: ps, cs: cs}
+			} else if r.Chance(50) {
 				p := r.Pick([]string{"foo", "o", "aa", "needle", "é", "世", "😀", "bar", "oo", "aaa", "fo", " "})
 				cs := r.Chance(50)
 				qsp = qspec{q: &query.Substring{Pattern: p, CaseSensitive: cs, Content: true}, desc: fmt.Sprintf("substr(%q,cs=%v)", p, cs), sub: p, cs: cs}
@@ -365,7 +383,41 @@ func TestVerifC02(t *testing.T) {
 					}
 					// re-derive by scanning
 					var want [][2]int
-					if qsp.sub != "" {
+					if len(qsp.ors) > 0 {
+						matchAt := func(p string, k int) bool {
+							if k+len(p) > len(c) {
+								return false
+							}
+							return (qsp.cs && bytes.Equal(c[k:k+len(p)], []byte(p))) || (!qsp.cs && bytes.EqualFold(c[k:k+len(p)], []byte(p)))
+						}
+						for _, x := range rs { // every range is an occurrence of an atom, the longest one starting there
+							ok, longer := false, false
+							for _, p := range qsp.ors {
+								if matchAt(p, x[0]) {
+									if len(p) == x[1]-x[0] {
+										ok = true
+									}
+									if len(p) > x[1]-x[0] {
+										longer = true
+									}
+								}
+							}
+							if !ok {
+								fail("or-not-an-atom", "or of substrings: a reported range is not an occurrence of one of the atoms")
+							}
+							if longer {
+								fail("or-not-longest", "or of substrings: a longer atom occurrence starts at the start of a reported range")
+							}
+						}
+						for _, p := range qsp.ors { // completeness: every occurrence starts inside a reported range
+							for k := 0; k+len(p) <= len(c); k++ {
+								if matchAt(p, k) && !covered[k] {
+									fail("or-dropped", fmt.Sprintf("or of substrings: the occurrence of %q at %d starts in no reported range", p, k))
+									break
+								}
+							}
+						}
+					} else if qsp.sub != "" {
 						pat := []byte(qsp.sub)
 						for from := 0; from+len(pat) <= len(c); {
 							i := -1
